@@ -128,6 +128,21 @@ def run(ck):
                 if idx is not None:
                     st = [f for f in H.strip_refs(idx['i']).get('fields', []) if f['f'] == 'start']
                     start = H.lit_value(st[0]['e']) if st else None
+            if cur['c'].get('k') == 'LetCond' and not lits:
+                # `if let Some(t) = s.strip_prefix("0x").or_else(|| s.strip_prefix("0X")) { Some((16, t)) }`: what is left starts
+                # right behind the prefix
+                pat = cur['c']['pat']
+                bound = {b['hid'] for b in H.pat_bindings(pat)}
+                sp = [c for c in H.calls_in(cur['c']['e']) if c.get('m') == 'strip_prefix']
+                others = [c for c in H.calls_in(cur['c']['e']) if c.get('m') not in ('strip_prefix', 'or_else', 'or')]
+                if sp and not others and (pat.get('def') or '').endswith('Option::Some') and v.get('k') == 'Call' and v['args'] and H.strip_refs(v['args'][0]).get('k') == 'Tup':
+                    tup = H.strip_refs(v['args'][0])
+                    rest = H.strip_refs(tup['es'][1])
+                    if rest.get('k') == 'Path' and rest.get('hid') in bound:
+                        for c in sp:
+                            lit = H.lit_value(c['args'][0]) if c['args'] else None
+                            if isinstance(lit, str) and len(lit) == 2:
+                                got[lit] = [radix, len(lit)]
             for lit in lits:
                 if isinstance(lit, str) and len(lit) == 2:
                     got[lit] = [radix, start]
